@@ -118,7 +118,7 @@ func c14Opts(accept string) []SqlOption {
 func c14Sess(ctx context.Context, s Session, end func(bool)) verifc14.Sess {
 	nested := func(err error, ran bool) error {
 		if ran {
-			return errors.New("c14: nested body ran")
+			return verifc14.NewSrcErr("nestran", nil) // the nested Transact ran its body instead of refusing
 		}
 		return err
 	}
